@@ -90,7 +90,7 @@ def decode_chain(ctx: Ctx) -> tuple[dict, Optional[ClassInfo], bool]:
         seen: list = []
 
         def on_call(c: ast.Call, ev, _seen=seen):
-            fn = c.func
+            fn = ev.resolve_alias(c.func) if hasattr(ev, "resolve_alias") else c.func
             cls = None
             if isinstance(fn, ast.Name):
                 if fn.id == "len" and len(c.args) == 1:
